@@ -46,7 +46,7 @@ def run_tlc(module, cfg=None, env=None, workers=1, extra=(), timeout=3600, cwd=N
     """Run TLC on spec/<module>.tla. Returns dict(stdout, wall_s, states, distinct, tuples)."""
     tag = tag or module
     meta = workdir("meta_" + tag)
-    cmd = ["java", "-XX:+UseParallelGC", "-Xmx" + heap, "-cp", JAR_CP, "tlc2.TLC",
+    cmd = ["java", "-XX:+UseParallelGC", "-Xss512m", "-Xmx" + heap, "-cp", JAR_CP, "tlc2.TLC",
            "-workers", str(workers), "-metadir", meta, "-noGenerateSpecTE"]
     if cfg:
         cmd += ["-config", cfg]
